@@ -174,6 +174,15 @@ def run(res, replay=None):
     ncase = 60 if res.tier == 'quick' else 600
     specs = [replay['replay']['spec']] if replay else \
         [rand_demography(rng, discrete_only=(i % 3 == 0)) for i in range(ncase)]
+    if not replay:
+        # deterministic inputs that re-confirm the recorded findings D4 (one split) and D15 (two chained splits at the same time)
+        specs.append({'pop_sizes': {'a': {'0.0': 1.0}, 'b': {'0.0': 4.0}},
+                      'added_events': [{'type': 'PopulationSplit', 'time': 1.0, 'derived': 'b', 'ancestral': 'a', 'multiplier': 100}],
+                      'explicit_demography': True})
+        specs.append({'pop_sizes': {'a': {'0.0': 1.0}, 'b': {'0.0': 2.0}, 'c': {'0.0': 4.0}},
+                      'added_events': [{'type': 'PopulationSplit', 'time': 0.5, 'derived': 'c', 'ancestral': 'b', 'multiplier': 64},
+                                       {'type': 'PopulationSplit', 'time': 0.5, 'derived': 'b', 'ancestral': 'a', 'multiplier': 100}],
+                      'explicit_demography': True})
     NE = 14
     lookups = [0.0, 0.125, 0.25, 0.3, 0.5, 0.75, 1.0, 1.25, 1.5, 2.0, 2.5, 3.0, 7.0]
     cases = [{'spec': s, 'n_epochs': NE, 'lookup': rng.sample(lookups, 6)} for s in specs]
@@ -279,11 +288,29 @@ def run(res, replay=None):
                         if ep['start'] <= e['time'] and (ep['end'] is None or e['time'] < ep['end']):
                             fwd, rev = ep['mig'][der][anc], ep['mig'][anc][der]
                             if not fwd > 0:
-                                reversed_as_known = rev > 0 and fwd == 0   # exactly the recorded defect: the key is reversed
+                                # does this input fail BECAUSE of the recorded defect D4 (PopulationSplit._apply writes the transposed
+                                # keys)?  The same specification is evaluated with _apply replaced by the documented key convention;
+                                # if the derived lineages then do move to the ancestral population, the failure is the known finding
+                                # (whatever other events of the specification did to the wrongly written entries); otherwise it is new
+                                rr2 = C.run_impl('demography.py', {'documented_split': True, 'cases': [{'spec': spec, 'n_epochs': NE}]})['results'][0]
+                                fwd_doc = None
+                                if 'error' not in rr2:
+                                    for ep2 in rr2['epochs']:
+                                        if ep2['start'] <= e['time'] and (ep2['end'] is None or e['time'] < ep2['end']):
+                                            fwd_doc = ep2['mig'][rr2['pops'].index(e['derived'])][rr2['pops'].index(e['ancestral'])]
+                                reversed_as_known = fwd == 0 and fwd_doc is not None and fwd_doc > 0
+                                # a second recorded finding: two splits at the SAME time where the ancestral population of this split is
+                                # itself the derived population of the other one (c joins b while b joins a): whichever key convention
+                                # is used, the other split zeroes every rate of the intermediate population, so c is cut off
+                                chained = fwd == 0 and not reversed_as_known and any(
+                                    e2 is not e and e2['type'] == 'PopulationSplit' and float(e2['time']) == float(e['time'])
+                                    and e['ancestral'] in ([e2['derived']] if isinstance(e2['derived'], str) else e2['derived'])
+                                    for e2 in (spec.get('events') or []) + (spec.get('added_events') or []))
                                 res.violation('population split does not move derived lineages to the ancestral population',
                                               {'spec': spec, 'split': e, 'epoch': ep, 'rate_derived_to_ancestral': fwd,
-                                               'rate_ancestral_to_derived': rev},
-                                              finding_key='D4-population-split-direction' if reversed_as_known else None)
+                                               'rate_ancestral_to_derived': rev, 'rate_derived_to_ancestral_with_documented_keys': fwd_doc},
+                                              finding_key=('D4-population-split-direction' if reversed_as_known else
+                                                           ('D15-chained-simultaneous-splits' if chained else None)))
             res.sample({'spec': spec, 'epochs': len(eps)}, cap=4)
     # deterministic probe of the known grid-fringe finding D5
     probe = {'pop_sizes': {'a': {'0.0': 1.0, repr(1 - 5e-11): 2.0}},
